@@ -42,7 +42,7 @@ RULE = ('client programs drawn from a DSL (1-3 state leaves of int32/float32 wit
         '(aliasing) init/step/final modes; with and without step results) x client counts 0..2D+1 x batch-count profiles '
         '(all zero, equal, unequal, ascending, one long) x numpy / jax-array inputs x device counts; every case runs the '
         'jit, debug and pmap backends; thread cases: random nested set/with/raise/get scripts on 2-4 real threads in a '
-        'generated global order.  non-trivial = at least one client with at least one batch (run cases) or at least one '
+        'generated global order (ops: set, get, bind = fedjax.for_each_client(...), with, raise, unsupported names); duplicate client ids in a few cases; yields compared as multisets.  non-trivial = at least one client with at least one batch (run cases) or at least one '
         'get (thread cases); distinct = distinct case JSON')
 TRUSTED = ['XLA / jax.numpy numerics on small dyadic values are exact (exercised: the oracle recomputes in float64)',
            'jnp.where forward semantics = selection; jax.pmap = map over the leading axis (exercised, not modelled)',
@@ -51,8 +51,8 @@ TRUSTED = ['XLA / jax.numpy numerics on small dyadic values are exact (exercised
            'tools/anchors/for_each_client.py: structural translator of _blockify / the pmap backend / the jit donation '
            'sites / the backend-choice code (fail-closed recogniser + translate.Ctx for the index expressions)',
            'tools/harness/c02_worker.py (DSL -> jax functions, observation canonicaliser) and the script flattener _flatten']
-ASSUMPTIONS = ['client ids are hashable and pairwise distinct in the generated collections (the theorem itself is a '
-               'Permutation statement and does not need distinctness)',
+ASSUMPTIONS = ['client ids are hashable; duplicate ids are generated too: the code (and the Permutation theorem) gives one '
+               'result per input ENTRY, nothing is merged',
                'all batches of one call have the same pytree structure / shapes (pmap stacks them), block_size >= 1',
                'client_init / client_step / client_final are pure jax-traceable functions of their arguments',
                'section variables of the theorems: init, step, final, zeros_like functions are ARBITRARY (no hypothesis); '
@@ -63,7 +63,7 @@ ASSUMPTIONS = ['client ids are hashable and pairwise distinct in the generated c
 PARTIAL = ['real XLA donation and pmap scheduling are runtime behaviour: the model exhibits donation only as the abstract '
            'effect at the donate_argnums call sites (store model, jit backend); validity of the caller buffers is '
            'additionally observed on every case and every backend (is_deleted / bit-equality)',
-           'dtype and shape of outputs are judged by the oracle only (the Coq model works on flattened leaves)',
+           'dtype and shape of every output / step-result leaf are compared in Coq as tags next to the flattened values (the model predicts them from the program: lp_int, lp_shape); the generic theorems do not speak about dtypes',
            'the zeroing of masked step results in p_client_step is modelled but neither anchored nor observable (results '
            'of padding batches are always truncated away): removing it is an equivalent change',
            'jit_client_init without the copy is unobservable on the installed JAX (jit returns fresh buffers); it is caught '
